@@ -1,4 +1,5 @@
 import Goloop.Model.C21
+import Goloop.Props.C24
 namespace Goloop.C21.Proofs
 open Goloop Goloop.C21
 
@@ -700,5 +701,52 @@ theorem prekey_eq_iff (pre : Bytes) (p q : Path) (hp : AllSmall p.parts) (hq : A
   constructor
   · intro h; exact appendKeysB_injective pre _ _ hp hq h
   · intro h; simp [Path.preKey, h]
+
+/-! ### the integer encoders are those of C24 (`common/intconv`), whose round-trip theorems give injectivity -/
+
+theorem int64Loop_eq_c24 (t : Int) : ∀ (f : Nat) (v : Int) (acc : Bytes),
+    int64Loop t f v acc = Goloop.C24.int64Loop t f v acc
+  | 0, _, _ => rfl
+  | f + 1, v, acc => by
+    simp only [int64Loop, Goloop.C24.int64Loop, byteOfInt, Goloop.C24.byteOfInt,
+      int64Loop_eq_c24 t f]
+
+theorem int64ToBytes_eq_c24 (v : Int) : int64ToBytes v = Goloop.C24.int64ToBytes v := by
+  simp only [int64ToBytes, Goloop.C24.int64ToBytes, int64Loop_eq_c24]
+
+theorem natBytesAux_eq_c24 : ∀ (f v : Nat) (acc : Bytes),
+    natBytesAux f v acc = Goloop.C24.natBytesAux f v acc
+  | 0, _, _ => rfl
+  | f + 1, v, acc => by
+    simp only [natBytesAux, Goloop.C24.natBytesAux, byteOfNat, Goloop.C24.byteOfNat,
+      natBytesAux_eq_c24 f]
+
+theorem natBytes_eq_c24 (v : Nat) : natBytes v = Goloop.C24.natBytes v := by
+  simp only [natBytes, Goloop.C24.natBytes, natBytesAux_eq_c24]
+
+theorem bitLen_eq_c24 (v : Nat) : bitLen v = Goloop.C24.bitLen v := rfl
+
+theorem bigIntToBytes_eq_c24 (i : Int) : bigIntToBytes i = Goloop.C24.bigIntToBytes i := by
+  simp only [bigIntToBytes, Goloop.C24.bigIntToBytes, natBytes_eq_c24, bitLen_eq_c24]
+
+/-- `Int64ToBytes` is injective on the whole int64 range (negative values included) -/
+theorem int64ToBytes_inj (i j : Int) (hi : -(2:Int)^63 ≤ i ∧ i < (2:Int)^63)
+    (hj : -(2:Int)^63 ≤ j ∧ j < (2:Int)^63) (h : int64ToBytes i = int64ToBytes j) : i = j := by
+  rw [int64ToBytes_eq_c24, int64ToBytes_eq_c24] at h
+  have e1 := Goloop.C24.int64_roundtrip i hi
+  have e2 := Goloop.C24.int64_roundtrip j hj
+  rw [h, e2] at e1
+  exact (Option.some.inj e1).symm
+
+/-- `BigIntToBytes` is injective on all integers -/
+theorem bigIntToBytes_inj (i j : Int) (h : bigIntToBytes i = bigIntToBytes j) : i = j := by
+  rw [bigIntToBytes_eq_c24, bigIntToBytes_eq_c24] at h
+  have e := congrArg Goloop.C24.bigIntSetBytes h
+  rwa [Goloop.C24.big_roundtrip, Goloop.C24.big_roundtrip] at e
+
+/-- on the int64 range `ToBytes` of an `int` and of a `*big.Int` with the same value coincide -/
+theorem int64ToBytes_eq_bigIntToBytes (v : Int) (h : -(2:Int)^63 ≤ v ∧ v < (2:Int)^63) :
+    int64ToBytes v = bigIntToBytes v := by
+  rw [int64ToBytes_eq_c24, bigIntToBytes_eq_c24]; exact Goloop.C24.int64_eq_big v h
 
 end Goloop.C21.Proofs
